@@ -75,7 +75,7 @@ def is_mcall(n, path=None):
 def mcall(n):
     """-> dict(span,name,path,gargs,recv_ty,recv,args,ty)"""
     n = strip(n)
-    return {"span": n[1], "name": n[2], "path": n[3], "gargs": n[4], "recv_ty": n[5], "recv": n[6], "args": n[7], "ty": n[8]}
+    return {"span": n[1], "name": n[2], "path": n[3], "gargs": n[4], "recv_ty": n[5], "recv": n[6], "args": n[7], "ty": n[8], "recv_ty_unadj": n[9] if len(n) > 9 else None}
 
 
 def lit_int(n):
